@@ -6,6 +6,17 @@ import facts
 from astlib import calls, find_fn, fns_in_file, last, method_calls, pat_paths, render, site, strip, walk
 from pathcond import conditions_to, fact_str, facts_str, let_env
 import c14
+import alpha
+import sgrep
+
+TA_FN_ROLES = [("cfg", "param", 0), ("result", "let", "TaintAnalysis::new(cfg.parameters())"), ("basic_block", "forvar", "cfg.iter()"), ("stmt", "forvar", "basic_block.iter()")]
+TA_ARM_ROLES = {
+    "Substitution": [("sink", "forvar", "stmt.variables_written()"), ("source", "forvar", "stmt.variables_read()")],
+    "Declaration": [("meta", "field", "Declaration", "meta"), ("names", "field", "Declaration", "names"), ("dimensions", "field", "Declaration", "dimensions"),
+                    ("sink", "forvar", "names"), ("size", "forvar", "dimensions"), ("source", "forvar", "size.variables_read()")],
+    "IfThenElse": [("cond", "field", "IfThenElse", "cond"), ("true_branch", "let", "cfg.get_true_branch(basic_block)", "optional"), ("false_branch", "let", "cfg.get_false_branch(basic_block)", "optional"),
+                   ("body", "forvar", "true_branch.iter().chain(false_branch.iter())"), ("sink", "forvar", "body.variables_written()"), ("source", "forvar", "cond.variables_read()")],
+}
 
 TITLE = "Unused / side-effect-free claims"
 LEVEL_TEXT = (
@@ -31,9 +42,12 @@ CLASSES = ("locals", "signals", "components")
 def rule_taint(ctx):
     R = "C09.1"
     ctx.rule(R, "every statement kind has its taint rule: an assignment taints what it writes with everything it reads; dimensions taint the declared names; a condition without a known constant value taints everything written in the true and in the false branch region; nothing else is skipped")
-    fn = find_fn(TA, "run_taint_analysis")
-    if fn is None:
+    fn0 = find_fn(TA, "run_taint_analysis")
+    if fn0 is None:
         return ctx.missing(R, "run_taint_analysis")
+    fn, miss = alpha.canon_with_arms(fn0, TA_FN_ROLES, "stmt", TA_ARM_ROLES)
+    if miss:
+        return ctx.missing(R, "run_taint_analysis/roles", "cannot identify %s" % miss)
     ms = [m for m in walk(fn["body"]) if m["k"] == "Match" and render(strip(m["scrut"])) == "stmt"]
     if len(ms) != 1:
         return ctx.missing(R, "run_taint_analysis/match")
@@ -91,16 +105,20 @@ def rule_taint(ctx):
     mt = find_fn(TA, "multi_step_taint")
     if mt is not None:
         t = render(mt["body"]).replace(" ", "")
-        ok = "letmutupdate=HashSet::from([source.clone()]);" in t and "while!update.is_subset(&result){result.extend(update.iter().cloned());update=update.iter().flat_map(|source|self.single_step_taint(source)).collect();}" in t
+        pv = sgrep.params(mt)
+        envl = sgrep.lets(mt["body"])
+        ok = bool(pv) and sgrep.has(mt["body"], "HashSet::from([__src])", None, {"__src": pv[0]}) and sgrep.has(mt["body"], "while !__u.is_subset(__r) { __body }") and sgrep.has(mt["body"], "__r.extend(__u.iter().cloned())") and sgrep.has(mt["body"], "__u = __u.iter().flat_map(|__x| self.single_step_taint(__x)).collect()")
         ctx.check(R, "TaintAnalysis::multi_step_taint/reflexive-transitive-closure", ok, t[:260], site(TA, mt))
     ta = find_fn(TA, "taints_any")
     if ta is not None:
         t = render(ta["body"]).replace(" ", "")
-        ctx.check(R, "TaintAnalysis::taints_any", t == "{self.multi_step_taint(source).iter().any(|sink|sinks.contains(sink))}", t, site(TA, ta))
+        pv = sgrep.params(ta)
+        ctx.check(R, "TaintAnalysis::taints_any", len(pv) == 2 and sgrep.has(ta["body"], "self.multi_step_taint(__a).iter().any(|__x| __b.contains(__x))", sgrep.lets(ta["body"]), {"__a": pv[0], "__b": pv[1]}), t, site(TA, ta))
     ats = find_fn(TA, "add_taint_step")
     if ats is not None:
         t = render(ats["body"]).replace(" ", "")
-        ctx.check(R, "TaintAnalysis::add_taint_step", "self.taint_map.entry(source.clone()).or_default()" in t and "sinks.insert(sink.clone())" in t, t, site(TA, ats))
+        pv = sgrep.params(ats)
+        ctx.check(R, "TaintAnalysis::add_taint_step", len(pv) == 2 and sgrep.has(ats["body"], "self.taint_map.entry(__a).or_default().insert(__b)", sgrep.lets(ats["body"]), {"__a": pv[0], "__b": pv[1]}), t, site(TA, ats))
     # who may call the branch-region queries
     callers = set()
     for f in facts.ast():
@@ -113,17 +131,66 @@ def rule_taint(ctx):
     ctx.check(R, "branch-region-queries/who-may-call", callers <= {"taint_analysis.rs::run_taint_analysis"}, "callers: %s" % sorted(callers))
 
 
+def canon_side_effects(ctx, R):
+    """run_side_effect_analysis with its working sets renamed to canonical names (found by what they are built from)"""
+    import copy
+    fn0 = find_fn(SE, "run_side_effect_analysis")
+    if fn0 is None:
+        ctx.missing(R, "run_side_effect_analysis")
+        return None
+    fn, miss = alpha.canon(fn0, [("cfg", "param", 0), ("taint_analysis", "let", "run_taint_analysis(cfg)"), ("constraint_analysis", "let", "run_constraint_analysis(cfg)"),
+                                 ("source", "forvar", "taint_analysis.definitions()"), ("basic_block", "forvar", "cfg.iter()")])
+    if miss:
+        ctx.missing(R, "run_side_effect_analysis/roles", "cannot identify %s" % miss)
+        return None
+    envl = sgrep.lets(fn["body"])
+    mp = {}
+    for k, v in envl.items():
+        t = render(v).replace(" ", "")
+        if "SignalType::Input|SignalType::Output" in t:
+            mp[k] = "exported_signals"
+    for n, b in sgrep.find(fn["body"], "__vr.extend(basic_block.variables_read().map(|__v| __v.name().clone()))"):
+        mp[b["__vr"]] = "variables_read"
+    ex = [k for k, v in mp.items() if v == "exported_signals"]
+    if len(ex) == 1:
+        for k, v in envl.items():
+            if sgrep.has(v, "__e.iter().flat_map(|__s| taint_analysis.multi_step_taint(__s)).collect()", None, {"__e": ex[0]}):
+                mp[k] = "exported_sinks"
+        es = [k for k, v in mp.items() if v == "exported_sinks"]
+        for k, v in envl.items():
+            if es and render(v).replace(" ", "").startswith(es[0] + ".iter().flat_map(") and sgrep.has(v, "constraint_analysis.multi_step_constraint(__s)"):
+                mp[k] = "sinks"
+    need = {"exported_signals", "variables_read", "exported_sinks", "sinks"}
+    if set(mp.values()) != need:
+        ctx.missing(R, "run_side_effect_analysis/working-sets", "found %s" % mp)
+        return None
+    alpha.rename(fn["body"], {k: v for k, v in mp.items() if k != v})
+    return fn
+
+
 def rule_sinks(ctx):
     R = "C09.2"
     ctx.rule(R, "sinks = input/output signals, the constraint partners of everything they taint, and every variable (of any class) read by a declaration, return, assert or condition")
-    fn = find_fn(SE, "run_side_effect_analysis")
+    fn = canon_side_effects(ctx, R)
     if fn is None:
-        return ctx.missing(R, "run_side_effect_analysis")
+        return
     t = render(fn["body"]).replace(" ", "")
     ctx.check(R, "exported-signals/inputs-and-outputs", "VariableType::Signal(SignalType::Input|SignalType::Output,_)" in t, "", site(SE, fn))
-    ctx.check(R, "sinks/include-exported-signals", "sinks.extend(exported_signals);" in t, "", site(SE, fn))
-    ctx.check(R, "sinks/tainted-by-exported-signals", "exported_signals.iter().flat_map(|source|taint_analysis.multi_step_taint(source)).collect::<HashSet<_>>()" in t, "", site(SE, fn))
-    ctx.check(R, "sinks/constraint-partners", "constraint_analysis.multi_step_constraint(source)" in t and "if!result.is_empty(){result.insert(source.clone());}" in t, "", site(SE, fn))
+    envl = sgrep.lets(fn["body"])
+    # name the sets by their defining expressions
+    exported = [k for k, v in envl.items() if "SignalType::Input|SignalType::Output" in render(v).replace(" ", "")]
+    ta_name = [k for k, v in envl.items() if render(strip(v)).replace(" ", "").startswith("run_taint_analysis(")]
+    ca_name = [k for k, v in envl.items() if render(strip(v)).replace(" ", "").startswith("run_constraint_analysis(")]
+    okn = len(exported) == 1 and len(ta_name) == 1 and len(ca_name) == 1
+    ctx.check(R, "sinks/ingredients", okn, "exported signals %s, taint analysis %s, constraint analysis %s" % (exported, ta_name, ca_name), site(SE, fn))
+    if okn:
+        ex, tan, can = exported[0], ta_name[0], ca_name[0]
+        tb = [k for k, v in envl.items() if sgrep.has(v, "__e.iter().flat_map(|__s| __t.multi_step_taint(__s)).collect()", None, {"__e": ex, "__t": tan})]
+        ctx.check(R, "sinks/tainted-by-exported-signals", len(tb) == 1, "the set of everything tainted by the exported signals: %s" % tb, site(SE, fn))
+        sk = [k for k, v in envl.items() if tb and sgrep.has(v, "__c.multi_step_constraint(__s)", None, {"__c": can}) and render(v).replace(" ", "").startswith(tb[0] + ".iter().flat_map(")]
+        ctx.check(R, "sinks/constraint-partners", len(sk) == 1 and sgrep.has(envl[sk[0]], "if !__r.is_empty() { __r.insert(__s); }") if sk else False, "sinks start from the constraint partners of the tainted set (and the tainted element itself when it occurs in a constraint): %s" % sk, site(SE, fn))
+        sinks = sk[0] if sk else "sinks"
+        ctx.check(R, "sinks/include-exported-signals", sgrep.has(fn["body"], "__s.extend(__e)", None, {"__s": sinks, "__e": ex}), "", site(SE, fn))
     ms = [m for m in walk(fn["body"]) if m["k"] == "Match" and render(strip(m["scrut"])) == "stmt"]
     if len(ms) != 1:
         ctx.missing(R, "run_side_effect_analysis/statement-match")
@@ -137,7 +204,10 @@ def rule_sinks(ctx):
         ctx.check(R, "sinks/reads-of-declarations-returns-asserts-conditions", ok, "statement kinds and reads: %s (all classes: locals, signals and components)" % (got,), site(SE, ms[0]))
         cs = conditions_to(fn["body"], ms[0]) or []
         ctx.check(R, "sinks/every-statement", [c[0] for c in cs] == ["loop", "loop"], facts_str(cs), site(SE, ms[0]))
-    ctx.check(R, "variables-read/all-blocks-all-classes", "forbasic_blockincfg.iter(){variables_read.extend(basic_block.variables_read().map(|var|var.name().clone()));}" in t, "", site(SE, fn))
+    okv = False
+    for n, b in sgrep.find(fn["body"], "for __bb in cfg.iter() { __body }"):
+        okv = okv or sgrep.has(n, "__vr.extend(__bb.variables_read().map(|__v| __v.name().clone()))", None, {"__bb": b["__bb"]})
+    ctx.check(R, "variables-read/all-blocks-all-classes", okv, "", site(SE, fn))
     # variables_read = locals + signals + components (trait default)
     vr = None
     for q, f in fns_in_file(VMF):
@@ -160,9 +230,9 @@ def rule_sinks(ctx):
 def rule_selection(ctx):
     R = "C09.4"
     ctx.rule(R, "`never read` is reported iff the name is not in the set of names read; `no side effect` iff it is read and taints no sink; `_` is skipped; nothing else suppresses or adds a claim")
-    fn = find_fn(SE, "run_side_effect_analysis")
+    fn = canon_side_effects(ctx, R)
     if fn is None:
-        return ctx.missing(R, "run_side_effect_analysis")
+        return
     pushes = [p for p in method_calls(fn["body"], "push") if render(strip(p["recv"])) == "reports"]
     want = {
         "build_unused_param": ["fortaint_analysis.definitions()", "!variables_read.contains(source.name())", "cfg.parameters().contains(source.name())"],
